@@ -116,7 +116,7 @@ structure TExpr where
   ty     : DT
 
 inductive Stmt
-  | syntax (v : String)
+  | syntaxS (v : String)
   | info (kvs : List KV)
   | importLit (v : String)
   | importGroup (vs : List String)
@@ -130,6 +130,24 @@ abbrev Api := List Stmt
 
 def stopsPath (t : Tok) : Bool :=
   t.k == .LPAREN || t.s == "returns" || t.k == .AT_DOC || t.k == .AT_HANDLER || t.k == .SEMICOLON || t.k == .RBRACE
+
+/-- end of `parseElemExpr`: `notExpectPeekToken(RAW_STRING, MUL, IDENT, RBRACE)` and the optional tag -/
+def fieldTail : List Tok → Option (Option String × List Tok)
+  | [] => none
+  | q :: r =>
+    if q.k = .RAW then some (some q.s, r)
+    else if q.k = .MUL ∨ q.k = .IDENT ∨ q.k = .RBRACE then some (none, q :: r)
+    else none
+
+/-- `p.peekTok.Line() > identNode.Token.Line() || p.peekTokenIs(token.RAW_STRING)`: the identifier is an embedded field -/
+def anonNext : List Tok → Bool
+  | [] => false
+  | p :: _ => p.nl || p.k == .RAW
+
+/-- `notExpectPeekToken(COMMA, IDENT, LBRACK, ANY, MUL, LBRACE)` after a field name -/
+def namedNext : List Tok → Bool
+  | [] => false
+  | p :: _ => p.k == .COMMA || p.k == .IDENT || p.k == .LBRACK || p.k == .ANY || p.k == .MUL || p.k == .LBRACE
 
 mutual
   /-- `parseDataType` -/
@@ -192,60 +210,37 @@ mutual
         -- anonymous pointer field
         match r with
         | { k := .IDENT, s := n, .. } :: r1 =>
-          let ty := DT.ptr (if n = "any" then .any n else .base n)
-          match r1 with
-          | { k := .RAW, s := tg, .. } :: r2 =>
+          match fieldTail r1 with
+          | some (tag, r2) =>
             match parseFields f r2 with
-            | some (rest, r3) => some (.cons [] ty (some tg) rest, r3)
+            | some (rest, r3) => some (.cons [] (.ptr (if n = "any" then .any n else .base n)) tag rest, r3)
             | none => none
-          | p :: _ =>
-            if p.k = .MUL ∨ p.k = .IDENT ∨ p.k = .RBRACE then
-              match parseFields f r1 with
-              | some (rest, r3) => some (.cons [] ty none rest, r3)
-              | none => none
-            else none
-          | [] => none
+          | none => none
         | _ => none
       else if t.k = .IDENT then
         if isKw t.s then none
-        else match r with
-          | [] => none
-          | p :: _ =>
-            if p.nl ∨ p.k = .RAW then
-              -- anonymous field
-              let ty := if t.s = "any" then DT.any t.s else DT.base t.s
-              match r with
-              | { k := .RAW, s := tg, .. } :: r2 =>
-                match parseFields f r2 with
-                | some (rest, r3) => some (.cons [] ty (some tg) rest, r3)
-                | none => none
-              | q :: _ =>
-                if q.k = .MUL ∨ q.k = .IDENT ∨ q.k = .RBRACE then
-                  match parseFields f r with
-                  | some (rest, r3) => some (.cons [] ty none rest, r3)
-                  | none => none
-                else none
-              | [] => none
-            else if p.k = .COMMA ∨ p.k = .IDENT ∨ p.k = .LBRACK ∨ p.k = .ANY ∨ p.k = .MUL ∨ p.k = .LBRACE then
-              match parseNames f r with
-              | some (more, r1) =>
-                match parseDT f r1 with
-                | some (ty, r2) =>
-                  match r2 with
-                  | { k := .RAW, s := tg, .. } :: r3 =>
-                    match parseFields f r3 with
-                    | some (rest, r4) => some (.cons (t.s :: more) ty (some tg) rest, r4)
-                    | none => none
-                  | q :: _ =>
-                    if q.k = .MUL ∨ q.k = .IDENT ∨ q.k = .RBRACE then
-                      match parseFields f r2 with
-                      | some (rest, r4) => some (.cons (t.s :: more) ty none rest, r4)
-                      | none => none
-                    else none
-                  | [] => none
+        else if anonNext r then
+          -- anonymous field
+          match fieldTail r with
+          | some (tag, r2) =>
+            match parseFields f r2 with
+            | some (rest, r3) => some (.cons [] (if t.s = "any" then .any t.s else .base t.s) tag rest, r3)
+            | none => none
+          | none => none
+        else if namedNext r then
+          match parseNames f r with
+          | some (more, r1) =>
+            match parseDT f r1 with
+            | some (ty, r2) =>
+              match fieldTail r2 with
+              | some (tag, r3) =>
+                match parseFields f r3 with
+                | some (rest, r4) => some (.cons (t.s :: more) ty tag rest, r4)
                 | none => none
               | none => none
-            else none
+            | none => none
+          | none => none
+        else none
       else none
   /-- the `for p.peekTokenIs(token.COMMA)` loop of `parseElemExpr` -/
   def parseNames : Nat → List Tok → Option (List String × List Tok)
@@ -578,7 +573,7 @@ def parseStmt (f : Nat) : List Tok → Option (Stmt × List Tok)
     | .IDENT =>
       if t.s = "syntax" then
         match r with
-        | { k := .ASSIGN, .. } :: { k := .STRING, s := v, .. } :: r1 => some (.syntax v, r1)
+        | { k := .ASSIGN, .. } :: { k := .STRING, s := v, .. } :: r1 => some (.syntaxS v, r1)
         | _ => none
       else if t.s = "info" then
         match r with
@@ -661,7 +656,7 @@ def normItem (i : Item) : Item :=
 
 /-- `none` = the statement formats to the empty string and is skipped by `AST.Format`. -/
 def normStmt : Stmt → Option Stmt
-  | .syntax v => some (.syntax v)
+  | .syntaxS v => some (.syntaxS v)
   | .info kvs => if kvsEmpty kvs then none else some (.info kvs)
   | .importLit v => if isZero v then none else some (.importLit v)
   | .importGroup vs => if vs.all isZero then none else some (.importGroup vs)
@@ -778,7 +773,7 @@ def printImports : List String → List Tok
   | v :: r => tk .STRING v true :: printImports r
 
 def printStmt : Stmt → List Tok
-  | .syntax v => [tk .IDENT "syntax" true, tk .ASSIGN "=", tk .STRING v]
+  | .syntaxS v => [tk .IDENT "syntax" true, tk .ASSIGN "=", tk .STRING v]
   | .info kvs => tk .IDENT "info" true :: tk .LPAREN "(" :: (printKVs kvs ++ [tk .RPAREN ")" true])
   | .importLit v => [tk .IDENT "import" true, tk .STRING v]
   | .importGroup vs => tk .IDENT "import" true :: tk .LPAREN "(" :: (printImports vs ++ [tk .RPAREN ")" true])
